@@ -101,6 +101,7 @@ def srcEvents (w : Tape.World) (src : Str) (img : Image) (cur : Nat) : List LEv 
   | some data =>
     if (splitSource src).1.length > 8 then [.before (str "-- too long name : " ++ (splitSource src).2.2.2)]
     else if (splitSource src).2.1.length > 3 then [.before (str "-- too long extension : " ++ (splitSource src).2.2.2)]
+    else if ((splitSource src).1 ++ (splitSource src).2.1).any (· ≥ 128) then [.before (str "-- not an ascii name : " ++ (splitSource src).2.2.2)]
     else fileEvents (splitSource src).1 (dispatch (splitSource src).1 (splitSource src).2.1 (splitSource src).2.2.1).2.2
       (dispatch (splitSource src).1 (splitSource src).2.1 (splitSource src).2.2.1).1
       (dispatch (splitSource src).1 (splitSource src).2.1 (splitSource src).2.2.1).2.1 data 4 img cur
@@ -123,14 +124,18 @@ theorem injFile_events (w : Tape.World) (src : Str) (st st' : Inj) (b : Bool) (h
       · rename_i h3; rw [if_pos h3]; cases h; rfl
       · rename_i h3
         rw [if_neg h3]
-        cases hi : injWriteFile (splitSource src).1 (dispatch (splitSource src).1 (splitSource src).2.1 (splitSource src).2.2.1).2.2
-            (dispatch (splitSource src).1 (splitSource src).2.1 (splitSource src).2.2.1).1
-            (dispatch (splitSource src).1 (splitSource src).2.1 (splitSource src).2.2.1).2.1 data 4 st with
-        | error e => rw [hi] at h; cases h
-        | ok s2 =>
-          rw [hi] at h
-          cases h
-          exact injWriteFile_events _ _ _ _ _ 4 st st' hi
+        split at h
+        · rename_i ha; rw [if_pos ha]; cases h; rfl
+        · rename_i ha
+          rw [if_neg ha]
+          cases hi : injWriteFile (splitSource src).1 (dispatch (splitSource src).1 (splitSource src).2.1 (splitSource src).2.2.1).2.2
+              (dispatch (splitSource src).1 (splitSource src).2.1 (splitSource src).2.2.1).1
+              (dispatch (splitSource src).1 (splitSource src).2.1 (splitSource src).2.2.1).2.1 data 4 st with
+          | error e => rw [hi] at h; cases h
+          | ok s2 =>
+            rw [hi] at h
+            cases h
+            exact injWriteFile_events _ _ _ _ _ 4 st st' hi
 
 /-- where the image and the cursor go for one source argument (computed with a mute listener) -/
 def srcNext (w : Tape.World) (src : Str) (img : Image) (cur : Nat) : Option (Image × Nat × Bool) :=
